@@ -104,11 +104,26 @@ class Program:
                 raise AnalysisError(f"override for unknown module {rel}")
         # one spelling for behaviour-preserving variants (canon.py); positions of the source are kept
         if not os.environ.get("SRCHECK_NO_CANON"):
-            from .canon import canonicalise, package_signatures
+            from .canon import canonicalise, module_string_constants, package_signatures
 
             signatures = package_signatures([m.tree for m in self.modules.values()])
-            for m in self.modules.values():
-                m.tree = canonicalise(m.tree, signatures)
+            constants = {name: module_string_constants(m.tree) for name, m in self.modules.items()}
+            for name, m in self.modules.items():
+                # string constants imported by name from another module of the package
+                imported: Dict[str, str] = {}
+                is_pkg = m.relpath.endswith("__init__.py")
+                for st in m.tree.body:
+                    if isinstance(st, ast.ImportFrom):
+                        if st.level:
+                            base = name.split(".")
+                            base = base[: len(base) - (st.level - (1 if is_pkg else 0))]
+                            src = ".".join(base + ([st.module] if st.module else []))
+                        else:
+                            src = st.module or ""
+                        for a in st.names:
+                            if a.name in constants.get(src, {}):
+                                imported[a.asname or a.name] = constants[src][a.name]
+                m.tree = canonicalise(m.tree, signatures, imported)
 
     def with_override(self, relpath: str, src: str) -> "Program":
         over = dict(self.overrides)
